@@ -48,6 +48,12 @@ Verdict(c, o) ==
   ELSE IF c.mode # "scale" /\ ~(o.ret2.r = RID /\ o.ret2.t = <<0, 0, 0>> /\ o.ret2.s = <<1, 1>>) THEN "SecondAlignmentNotIdentity"
   ELSE "ok"
 
+\* ---- similarity alignment of an estimate whose scale is within 4e-6 of the reference's (generating scale 1 + 2^-18, any rotation):
+\* the aligned poses are valid rigid-body poses (orthonormal to 1e-9, evo's own check passes) and lie on the reference
+NearUnitVerdict(c, o) == IF o.out # "ok" THEN "AlignmentRefused"
+                         ELSE IF ~o.valid THEN "PoseNotValidAfterAlignment"
+                         ELSE IF ~o.fits THEN "DoesNotReproduceGeneratingTransform" ELSE "ok"
+
 \* ---- the matrix recorded by ape()/rpe(): stored estimate = T (unaligned estimate)
 ResultVerdict(c, o) ==
   IF o.out # "ok" THEN "EvaluationRefused"
